@@ -129,3 +129,28 @@ Proof.
   eapply vsteps_cons; [|apply vsteps_nil].
   apply (vs_column _ [] 7 85 [(4, 100)] [3; 2; 2]). vm_compute. reflexivity.
 Qed.
+
+(** ** total plan area of the geometry: unchanged by every finite sequence of steps *)
+Definition mesh_area (cols : list (Q * Q)) : Q := qsum (map fst cols).
+Lemma mesh_area_app a b : mesh_area (a ++ b) == mesh_area a + mesh_area b.
+Proof. unfold mesh_area. rewrite map_app, qsum_app. reflexivity. Qed.
+Lemma mesh_area_children areas s : mesh_area (map (fun a => (a, s)) areas) == qsum areas.
+Proof. unfold mesh_area. induction areas as [|a r IH]; cbn [map qsum fst]; [reflexivity|rewrite IH; reflexivity]. Qed.
+Lemma vstep_mesh_area_ g g' : vstep g g' -> mesh_area (snd g') == mesh_area (snd g).
+Proof.
+  intros H. destruct H as [ths cols sel factor Hf|ths l1 A s l2 areas Hs]; cbn [snd]; [reflexivity|].
+  unfold replace_column. rewrite !mesh_area_app, mesh_area_children, Hs.
+  change ((A, s) :: l2) with ([(A, s)] ++ l2). rewrite mesh_area_app.
+  unfold mesh_area at 4. cbn [map qsum fst]. ring.
+Qed.
+Lemma vsteps_mesh_area_ g g' : vsteps g g' -> mesh_area (snd g') == mesh_area (snd g).
+Proof.
+  induction 1 as [g|g1 g2 g3 H12 H23 IH]; [reflexivity|].
+  rewrite IH. apply vstep_mesh_area_; auto.
+Qed.
+
+(** refine_layers: the new layers have positive thicknesses and the same total depth (the bottom
+    of the lowest layer does not move); layers that are not selected keep their thickness *)
+Lemma refine_layers_depth_ factor sel ths : (0 < factor)%nat -> all_pos ths ->
+  all_pos (refine_ths factor sel ths) /\ qsum (refine_ths factor sel ths) == qsum ths.
+Proof. intros Hf Hp. split; [apply refine_ths_pos; auto|apply refine_ths_sum; auto]. Qed.
